@@ -128,14 +128,16 @@ func (c *uvCtx) score() {
 				if c.sp.name == "Triangle" {
 					// keep a <= c <= b under the perturbation
 					if j == 0 || j == 2 {
-						if d := math.Abs(c.p[2] - c.p[0]); d == 0 {
+						if d := math.Abs(c.p[2] - c.p[0]); d < 1e-7*sc {
+							c.t.Count("score_points_too_close_to_a_kink", 1)
 							continue
 						} else {
 							h = math.Min(h, 0.02*d)
 						}
 					}
 					if j == 1 || j == 2 {
-						if d := math.Abs(c.p[1] - c.p[2]); d == 0 {
+						if d := math.Abs(c.p[1] - c.p[2]); d < 1e-7*sc {
+							c.t.Count("score_points_too_close_to_a_kink", 1)
 							continue
 						} else {
 							h = math.Min(h, 0.02*d)
@@ -246,11 +248,20 @@ func (c *uvCtx) fit() {
 	ones := make([]float64, n)
 	w3 := make([]float64, n)
 	wr := make([]float64, n)
+	wz := make([]float64, n) // zero weights: two of three samples do not count
+	wd := make([]float64, n) // one dominant weight
+	wt := make([]float64, n) // tiny weights
 	for i := range ones {
 		ones[i] = 1
 		w3[i] = 1 + float64(i%3)
 		wr[i] = 0.25 + float64((i*7)%n)/float64(n) // strongly non-uniform: shifts the weighted median
+		if i%3 == 1 {
+			wz[i] = 1 + float64(i%5)
+		}
+		wd[i] = 1
+		wt[i] = 1e-8 * (1 + float64(i%4))
 	}
+	wd[n/4] = 1e6
 	perm := make([]int, n)
 	for i := range perm {
 		perm[i] = (i*37 + 11) % n // 37 is coprime to 400
@@ -285,12 +296,17 @@ func (c *uvCtx) fit() {
 	px := make([]float64, n)
 	pw3 := make([]float64, n)
 	pwr := make([]float64, n)
+	pwz := make([]float64, n)
+	pwd := make([]float64, n)
+	pwt := make([]float64, n)
 	for i, j := range perm {
-		px[i], pw3[i], pwr[i] = xs[j], w3[j], wr[j]
+		px[i], pw3[i], pwr[i], pwz[i], pwd[i], pwt[i] = xs[j], w3[j], wr[j], wz[j], wd[j], wt[j]
 	}
 	sets := []ds{
 		{"sorted,nil", xs, nil}, {"sorted,ones", xs, ones}, {"sorted,w123", xs, w3}, {"sorted,wramp", xs, wr},
 		{"shuffled,nil", px, nil}, {"shuffled,w123", px, pw3}, {"shuffled,wramp", px, pwr},
+		{"sorted,wzero", xs, wz}, {"shuffled,wzero", px, pwz}, {"sorted,wdominant", xs, wd}, {"shuffled,wdominant", px, pwd},
+		{"sorted,wtiny", xs, wt}, {"shuffled,wtiny", px, pwt},
 	}
 	fits := map[string][]float64{}
 	scale := xs[n-1] - xs[0]
@@ -307,7 +323,14 @@ func (c *uvCtx) fit() {
 			r.fail("Fit-MLE", s.name, "log-likelihood of the fitted parameters %v is NaN", p)
 			continue
 		}
-		tol := tolFitLL * (math.Abs(ll) + float64(n))
+		sumw := float64(n)
+		if s.w != nil {
+			sumw = 0
+			for _, v := range s.w {
+				sumw += v
+			}
+		}
+		tol := tolFitLL * (math.Abs(ll) + sumw)
 		if l0 := c.loglik(c.p, s.x, s.w); l0 > ll+tol {
 			r.cls(fitClass(c.sp.name, s.name), "Fit-MLE", s.name, "fitted %v has log-likelihood %v < %v at the generating parameters %v", p, ll, l0, c.p)
 			continue
@@ -345,6 +368,9 @@ func (c *uvCtx) fit() {
 	same("sorted,nil", "shuffled,nil")
 	same("sorted,w123", "shuffled,w123")
 	same("sorted,wramp", "shuffled,wramp")
+	same("sorted,wzero", "shuffled,wzero")
+	same("sorted,wdominant", "shuffled,wdominant")
+	same("sorted,wtiny", "shuffled,wtiny")
 
 	// ConjugateUpdate: posterior from (prior = Fit(A) with strength sum(wA)) and the
 	// sufficient statistics of B equals Fit(A u B); strengths add up.
